@@ -5,7 +5,7 @@
 // that decreases towards the root (ASSUMED: Task::parent walks the prev chain to a node of smaller level).
 //@@ unit U-data
 //@@ default props=C07 rewrites=R1,R2,R3,R5,R13,R15 ghost="Tracked(h): Tracked<&mut DHeap>" ghostarg="Tracked(h)"
-//@@ heapmethods set_data set_if_exists get_own parent_of
+//@@ heapmethods set_data set_if_exists get_own parent_of cache_upsert
 use vstd::prelude::*;
 use std::sync::Arc;
 verus! {
@@ -14,7 +14,7 @@ pub type Key = Seq<char>;
 #[verifier::external_body]
 pub struct JsonValue { _p: u8 }
 pub type DataMap = Map<Key, JsonValue>;
-pub ghost struct DHeap { pub data: Map<Tid, DataMap> }
+pub ghost struct DHeap { pub data: Map<Tid, DataMap>, pub saved: Seq<Tid> }      // saved: Cache::upsert(task) calls (task row written)
 pub uninterp spec fn parent_tid(t: Tid) -> Option<Tid>;
 pub uninterp spec fn depth(t: Tid) -> nat;
 // the ancestors of a task, nearest first (ends at the root)
@@ -55,6 +55,10 @@ impl PriKeys {
 }
 
 pub struct Task { pub id: String }
+// R7: `self.runtime.cache().upsert(t).unwrap_or_else(|err| error!(..))`: the task row is written (an error is only logged)
+#[verifier::external_body]
+pub fn cache_upsert(t: &Arc<Task>, Tracked(h): Tracked<&mut DHeap>)
+    ensures final(h).data == old(h).data, final(h).saved == old(h).saved.push(t.id@) { unimplemented!() }
 impl Task {
     // TRUSTED primitive layer (task.rs): parent(), and the three one-line accessors of the data lock
     #[verifier::external_body]
@@ -66,7 +70,7 @@ impl Task {
     pub fn set_if_exists(&self, name: &String, value: &JsonValue, Tracked(h): Tracked<&mut DHeap>) -> (r: bool)
         requires old(h).data.dom().contains(self.id@)
         ensures r == old(h).data[self.id@].dom().contains(name@),
-                r ==> final(h).data == old(h).data.insert(self.id@, old(h).data[self.id@].insert(name@, *value)),
+                r ==> final(h).data == old(h).data.insert(self.id@, old(h).data[self.id@].insert(name@, *value)) && final(h).saved == old(h).saved,
                 !r ==> *final(h) == *old(h),
     { unimplemented!() }
     // R7: `self.with_data(move |data| data.get(name))` / `task.with_data(|data| data.get::<T>(name))`
@@ -153,6 +157,15 @@ pub open spec fn written(a: DHeap, b: DHeap, anc: Seq<Tid>, vars: DataMap, done:
     &&& forall|i: int, k: Key| 0 <= i < anc.len() && a.data[anc[i]].dom().contains(k) ==> #[trigger] b.data[anc[i]][k] == expected(a.data, anc, vars, done, i, k)
 }
 
+// every scope that took one of the names in `done` has been written to the store
+pub open spec fn saved_ok(a: DHeap, b: DHeap, anc: Seq<Tid>, vars: DataMap, done: Set<Key>) -> bool {
+    forall|i: int, k: Key| done.contains(k) && vars.dom().contains(k) && !is_private(k) && #[trigger] declares(a.data, anc, k, i) ==> b.saved.contains(anc[i])
+}
+pub proof fn lemma_push_contains(s: Seq<Tid>, x: Tid, y: Tid) ensures s.push(x).contains(x), s.contains(y) ==> s.push(x).contains(y)
+{
+    assert(s.push(x)[s.len() as int] == x);
+    if s.contains(y) { let i = choose|i: int| 0 <= i < s.len() && s[i] == y; assert(s.push(x)[i] == y); }
+}
 impl Task {
 //@@ extract file=acts/src/scheduler/process/task.rs in="impl Task" item="fn set_data" name=Task::set_data
 //@@ opt nolower
@@ -161,13 +174,13 @@ impl Task {
         requires old(h).data.dom().contains(self.id@)
         ensures
             //# V7-set-data-merges-into-the-own-task-only
-            final(h).data == old(h).data.insert(self.id@, old(h).data[self.id@].union_prefer_right(vars@)),
+            final(h).data == old(h).data.insert(self.id@, old(h).data[self.id@].union_prefer_right(vars@)) && final(h).saved == old(h).saved,
 //@@ end
     // R8 (hole, listed): the body of set_data is one lock + a loop of Vars::set over the entries = map union preferring `vars`
     #[verifier::external_body]
     pub fn merge_data(&self, vars: &Vars, Tracked(h): Tracked<&mut DHeap>)
         requires old(h).data.dom().contains(self.id@)
-        ensures final(h).data == old(h).data.insert(self.id@, old(h).data[self.id@].union_prefer_right(vars@)),
+        ensures final(h).data == old(h).data.insert(self.id@, old(h).data[self.id@].union_prefer_right(vars@)), final(h).saved == old(h).saved,
     { unimplemented!() }
 
 //@@ extract file=acts/src/scheduler/process/task.rs in="impl Task" item="fn find" name=Task::find
@@ -227,6 +240,7 @@ impl Task {
 //@@ rw R12 `for ( ref name , ref value ) in vars $B:block` => `for name in vars.keys_vec().iter() { let value = vars.value_ref(name); $B }`
 //@@ rw R7 `t . update_data_if_exists ( | v | { if v . contains_key ( name ) { v . set ( name , value ) ; return true ; } false } )` => `t.set_if_exists(name, value)`
 //@@ rw R7 `let mut refs = Vec :: new ( ) ;` => `let mut refs: Vec<Arc<Task>> = Vec::new();`
+//@@ rw R7 `self . runtime . cache ( ) . upsert ( t ) . unwrap_or_else ( | err | error ! ( $A:args ) ) ;` => `cache_upsert(t);`
 //@@ spec
         requires chain_ok(*old(h), self.id@)
         ensures
@@ -244,6 +258,9 @@ impl Task {
             forall|i: int, k: Key| 0 <= i < ancestors(self.id@).len() && old(h).data[ancestors(self.id@)[i]].dom().contains(k)
                 && !(vars@.dom().contains(k) && !is_private(k) && declares(old(h).data, ancestors(self.id@), k, i))
                 ==> #[trigger] final(h).data[ancestors(self.id@)[i]][k] == old(h).data[ancestors(self.id@)[i]][k],
+            //# V8-every-scope-that-took-a-value-is-written-to-the-store [C11]
+            forall|i: int, k: Key| vars@.dom().contains(k) && !is_private(k) && #[trigger] declares(old(h).data, ancestors(self.id@), k, i)
+                ==> final(h).saved.contains(ancestors(self.id@)[i]),
             //# V5-the-writers-own-data-takes-every-value
             final(h).data[self.id@] == old(h).data[self.id@].union_prefer_right(vars@),
 //@@ proof at=beforeloop1
@@ -267,7 +284,7 @@ impl Task {
         invariant
             //# written-so-far
             anc == ancestors(self.id@) && anc == ids(refs@) && anc.no_duplicates() && !anc.contains(self.id@) && chain_ok(*old(h), self.id@) && h.data.dom().contains(self.id@)
-                && written(*old(h), *h, anc, vars@, done) && h.data[self.id@] == old(h).data[self.id@]
+                && written(*old(h), *h, anc, vars@, done) && saved_ok(*old(h), *h, anc, vars@, done) && h.data[self.id@] == old(h).data[self.id@]
                 && __v2@.map_values(|s: String| s@) == ks && (forall|k: Key| vars@.dom().contains(k) <==> ks.contains(k))
                 && (forall|j: int| 0 <= j < __i2 ==> done.contains(#[trigger] ks[j])),
 //@@ proof at=loop2
@@ -282,6 +299,7 @@ impl Task {
                 // nothing written yet for this round: the names processed before keep their values, a private name changes nothing
                 assert forall|i: int, k: Key| 0 <= i < anc.len() && old(h).data[anc[i]].dom().contains(k) && (k != nm || is_private(nm))
                     implies expected(old(h).data, anc, vars@, done, i, k) == expected(old(h).data, anc, vars@, done0, i, k) by {}
+                assert(saved_ok(*old(h), h2, anc, vars@, done0));
             }
 //@@ loop 3
         invariant_except_break
@@ -293,7 +311,7 @@ impl Task {
         ensures
             //# found-the-outermost-holder-or-nothing
             (*h == h2 && (forall|j: int| 0 <= j < anc.len() ==> !h2.data[#[trigger] anc[j]].dom().contains(nm)))
-            || (exists|m: int| 0 <= m < anc.len() && #[trigger] declares(h2.data, anc, nm, m) && h.data == h2.data.insert(anc[m], h2.data[anc[m]].insert(nm, vars@[nm]))),
+            || (exists|m: int| 0 <= m < anc.len() && #[trigger] declares(h2.data, anc, nm, m) && h.data == h2.data.insert(anc[m], h2.data[anc[m]].insert(nm, vars@[nm])) && h.saved == h2.saved.push(anc[m])),
 //@@ proof at=loop3
                 proof { assert(ids(refs@)[__i3 - 1] == refs@[__i3 - 1].id@); }
 //@@ proof after=set_if_exists#1
@@ -307,12 +325,16 @@ impl Task {
             proof {
                 assert forall|j: int| 0 <= j < anc.len() implies (#[trigger] h2.data[anc[j]]).dom() == old(h).data[anc[j]].dom() by {}
                 if *h == h2 && (forall|j: int| 0 <= j < anc.len() ==> !h2.data[#[trigger] anc[j]].dom().contains(nm)) {
+                    assert forall|i: int, k: Key| done.contains(k) && vars@.dom().contains(k) && !is_private(k) && #[trigger] declares(old(h).data, anc, k, i)
+                        implies h.saved.contains(anc[i]) by {
+                        if k == nm { reveal(declares); assert(!h2.data[anc[i]].dom().contains(nm)); assert(old(h).data[anc[i]].dom() == h2.data[anc[i]].dom()); }
+                    }
                     assert forall|i: int, k: Key| 0 <= i < anc.len() && old(h).data[anc[i]].dom().contains(k)
                         implies #[trigger] h.data[anc[i]][k] == expected(old(h).data, anc, vars@, done, i, k) by {
                         if k == nm { reveal(declares); assert(!h2.data[anc[i]].dom().contains(nm)); }
                     }
                 } else {
-                    let m = choose|m: int| 0 <= m < anc.len() && #[trigger] declares(h2.data, anc, nm, m) && h.data == h2.data.insert(anc[m], h2.data[anc[m]].insert(nm, vars@[nm]));
+                    let m = choose|m: int| 0 <= m < anc.len() && #[trigger] declares(h2.data, anc, nm, m) && h.data == h2.data.insert(anc[m], h2.data[anc[m]].insert(nm, vars@[nm])) && h.saved == h2.saved.push(anc[m]);
                     lemma_declares_dom(old(h).data, h2.data, anc, nm, m);
                     assert(h2.data[anc[m]].dom().contains(nm)) by { reveal(declares); }
                     assert(h.data.dom() =~= h2.data.dom());
@@ -329,6 +351,11 @@ impl Task {
                         }
                     }
                     assert(h.data[self.id@] == old(h).data[self.id@]);
+                    assert forall|i: int, k: Key| done.contains(k) && vars@.dom().contains(k) && !is_private(k) && #[trigger] declares(old(h).data, anc, k, i)
+                        implies h.saved.contains(anc[i]) by {
+                        if k == nm { lemma_declares_unique(old(h).data, anc, nm, i, m); lemma_push_contains(h2.saved, anc[m], anc[m]); }
+                        else { assert(h2.saved.contains(anc[i])); lemma_push_contains(h2.saved, anc[m], anc[i]); }
+                    }
                 }
             }
 //@@ proof at=afterloop2
@@ -343,10 +370,11 @@ impl Task {
                 assert(h.data[anc[i]][k] == expected(old(h).data, anc, vars@, done, i, k));
             }
             assert(written(*old(h), *h, anc, vars@, vars@.dom()));
+            assert(saved_ok(*old(h), *h, anc, vars@, vars@.dom()));
         }
 //@@ proof before=set_data#1
         let ghost h3 = *h;
-        proof { assert(written(*old(h), h3, anc, vars@, vars@.dom())); }
+        proof { assert(written(*old(h), h3, anc, vars@, vars@.dom())); assert(saved_ok(*old(h), h3, anc, vars@, vars@.dom())); }
 //@@ proof at=end
         proof {
             assert forall|i: int| 0 <= i < anc.len() implies #[trigger] anc[i] != self.id@ by {}
